@@ -17,7 +17,7 @@ ASSUMPTIONS = ['nested-by-construction pairs come from vlib.gen_dt.widen (truste
                'soundness is judged with the real B.validate on generated valid values of A (python-side form)',
                'client flag differences (partial structs accepted by __call__ on the client) are not compared: '
                'probes use import_value + validate on both sides']
-REQUIRED = ['rebuild_trees', 'rebuild_probes', 'copy_trees', 'copy_mutations', 'compat_pairs', 'compat_returned',
+REQUIRED = ['rebuild_trees', 'rebuild_probes', 'copy_trees', 'copy_mutations', 'reconfigured_trees', 'reconfigured_probes', 'compat_pairs', 'compat_returned',
             'compat_sound_values', 'compat_nested_pairs', 'writable_classes']
 
 N = {'quick': 1500, 'thorough': 60000}
@@ -133,8 +133,8 @@ class Monitor:
                                 ('unit', lambda dt: 'mutated'), ('fmtstr', lambda dt: '%.7f'),
                                 ('absolute_resolution', lambda dt: 0.125), ('relative_resolution', lambda dt: 0.03125)],
                  'IntRange': [('min', lambda dt: dt.min + 1 if dt.min < dt.max else dt.min - 1), ('max', lambda dt: dt.max + 1 if dt.max < (1 << 63) else dt.max - 1)],
-                 'ScaledInteger': [('unit', lambda dt: 'mutated'), ('fmtstr', lambda dt: '%.7f'), ('max', lambda dt: dt.max + dt.scale * 3),
-                                   ('min', lambda dt: dt.min - dt.scale * 3), ('relative_resolution', lambda dt: 0.03125)],
+                 'ScaledInteger': [('unit', lambda dt: 'mutated'), ('fmtstr', lambda dt: '%.7f'), ('max', lambda dt: (round(dt.max / dt.scale) + 3) * dt.scale),
+                                   ('min', lambda dt: (round(dt.min / dt.scale) - 3) * dt.scale), ('relative_resolution', lambda dt: 0.03125)],
                  'StringType': [('maxchars', lambda dt: dt.maxchars + 1 if dt.maxchars < 1000 else 999), ('isUTF8', lambda dt: not dt.isUTF8),
                                 ('minchars', lambda dt: dt.minchars + 1 if dt.minchars < dt.maxchars else max(dt.minchars - 1, 0))],
                  'BLOBType': [('maxbytes', lambda dt: dt.maxbytes + 1), ('minbytes', lambda dt: dt.minbytes + 1 if dt.minbytes < dt.maxbytes else max(dt.minbytes - 1, 0))],
@@ -195,6 +195,69 @@ class Monitor:
                             dict(case, direction=direction))
                 return
         r.case(('copy', gen_dt.tree_shape(di)), True)
+
+    # ------------------------------------------------------------ (b') reconfigured at run time
+    def check_reconfigured(self, di, rng):
+        """properties of a built datatype are changed afterwards the way a configuration file / a driver does it
+        (setProperty at any node, also forwarded by a container to its member type; then checkProperties on the TOP
+        level only, as Parameter.checkProperties does): the type must behave exactly like a type rebuilt from its own
+        new description"""
+        r = self.r
+        t = self.B.build(di)
+        applied = []
+        cand = list(nodes(t))
+        rng.shuffle(cand)
+        for path, node in cand[:3]:
+            cls = type(node).__name__
+            muts = list(self.MUTATIONS.get(cls, []))
+            if cls == 'ScaledInteger':
+                muts.append(('scale', lambda dt: dt.scale / 2))
+            target, tpath = node, path
+            # a container forwards properties it does not know to its member type (configuration of an array parameter)
+            if cls == 'ArrayOf' and rng.random() < 0.6:
+                mcls = type(node.members).__name__
+                fw = [m for m in self.MUTATIONS.get(mcls, []) if m[0] in ('min', 'max', 'unit')]
+                if mcls == 'ScaledInteger':
+                    fw.append(('scale', lambda dt: dt.scale / 2))
+                if fw:
+                    prop, fn = rng.choice(fw)
+                    try:
+                        node.setProperty(prop, fn(node.members))
+                        applied.append([list(path), f'{mcls}.{prop} via ArrayOf'])
+                    except Exception:
+                        pass
+                    continue
+            if not muts:
+                continue
+            prop, fn = rng.choice(muts)
+            try:
+                node.setProperty(prop, fn(node))
+                applied.append([list(path), f'{cls}.{prop}'])
+            except Exception:
+                pass
+        if not applied:
+            return
+        r.count('reconfigured_trees')
+        case = {'sub': 'reconfigured', 'spec': di, 'applied': applied, 'seed': rng.random()}
+        try:
+            t.checkProperties()
+            info = json.loads(json.dumps(t.export_datatype(), allow_nan=False))
+            t2 = self.D.get_datatype(info)
+        except Exception as e:
+            r.count('reconfigured_rejected')      # an inconsistent combination is refused loudly: fine
+            return
+        if not aligned_ok(info):
+            return          # scaled limits off the new grid: outside the quantifier
+        what = '+'.join(sorted({a[1] for a in applied}))
+        n0 = len(r.violations)
+        ok = self.equivalent('reconfigured', info, t, t2, rng, case)
+        if not ok:
+            # key by the reconfigured property (mechanism), not only by the probe that showed it
+            for k in list(r.violations)[n0:]:
+                v = r.violations.pop(k)
+                v['key'] = k + '/after/' + what
+                r.violations.setdefault(v['key'], v)
+        r.case(('reconfigured', gen_dt.tree_shape(di), what), True)
 
     # ------------------------------------------------------------ (c) compatible
     def check_compat(self, da, db, relation, rng):
@@ -340,6 +403,17 @@ def aligned(di):
     return di
 
 
+def aligned_ok(info):
+    """scaled limits on the grid at every node"""
+    if isinstance(info, dict):
+        if info.get('type') == 'scaled':
+            return True       # exported scaled limits are integers by construction
+        return all(aligned_ok(v) for v in info.values())
+    if isinstance(info, list):
+        return all(aligned_ok(v) for v in info)
+    return True
+
+
 def run_shard(shard):
     r = rec.Recorder(shard)
     rng = random.Random(f'C03/{shard["seed"]}/{shard["idx"]}')
@@ -349,6 +423,7 @@ def run_shard(shard):
         mon.check_rebuild(di, rng)
         if i % 2 == 0:
             mon.check_copy(di, rng)
+        mon.check_reconfigured(di, rng)
         # pairs
         for _ in range(3):
             da = aligned(gen_dt.gen_tree(rng, rng.choice([0, 0, 1, 2])))
